@@ -1,6 +1,17 @@
 package checks
 
-import "verif/lab/core"
+import (
+	"fmt"
+	"math/big"
+	"time"
+
+	g "github.com/zenon-network/go-zenon/chain/genesis/mock"
+	"github.com/zenon-network/go-zenon/chain/nom"
+	"github.com/zenon-network/go-zenon/common/types"
+
+	"verif/lab/core"
+	"verif/lab/node"
+)
 
 // C16 — sync adopts only verified, strictly longer chains within the rollback window.
 func C16(run *core.Run) {
@@ -14,5 +25,111 @@ func C16(run *core.Run) {
 		every = 4
 	}
 	syncCheck(run, 4, 15, 2, every, syncOpts{})
+	stalePooledScenario(run)
 	run.Finish()
+}
+
+// stalePooledScenario: a kind of invalid element that only exists relative to the node's pool. The node verified and pooled
+// a block U that depends on its branch (it acknowledges the frontier / receives a send confirmed there); a longer branch is
+// adopted; the rightful producer of the next slot then delivers a momentum that confirms U. On the adopted branch U fails
+// verification, so the momentum is an "x" element of Sync.tla: OnlyVerified says it is refused.
+func stalePooledScenario(run *core.Run) {
+	for _, variant := range []string{"is-a-send-acknowledging-an-abandoned-momentum", "is-a-receive-acknowledging-an-abandoned-momentum"} {
+		func() {
+			node.Clock.Set(time.Unix(1000000000, 0))
+			rep := map[string]interface{}{"kind": "stale-pooled-block", "variant": variant}
+			p, err := node.New("stale-p", node.Options{Producer: true})
+			if err != nil {
+				core.Fatal("%v", err)
+			}
+			defer p.Stop()
+			s0, err := p.Submit(&nom.AccountBlock{BlockType: nom.BlockTypeUserSend, Address: g.User1.Address, ToAddress: g.Pillar5.Address, TokenStandard: types.ZnnTokenStandard, Amount: big.NewInt(10)}, g.User1)
+			core.Must(err)
+			core.Must(p.ProduceN(3))
+			base, err := p.Detailed(2, p.Height())
+			core.Must(err)
+			q, err := node.New("stale-q", node.Options{Producer: true})
+			core.Must(err)
+			defer q.Stop()
+			a, err := node.New("stale-a", node.Options{})
+			core.Must(err)
+			defer a.Stop()
+			for _, n := range []*node.Node{q, a} {
+				if _, err := n.InsertChain(wireAll(base)); err != nil {
+					core.Fatal("base: %v", err)
+				}
+			}
+			// branch X (one momentum, confirms a send S to the idle account), branch Y (two momentums)
+			_, err = p.Submit(&nom.AccountBlock{BlockType: nom.BlockTypeUserSend, Address: g.User1.Address, ToAddress: g.Pillar5.Address, TokenStandard: types.ZnnTokenStandard, Amount: big.NewInt(11)}, g.User1)
+			core.Must(err)
+			core.Must(p.Produce(0))
+			x, err := p.Detailed(p.Height(), p.Height())
+			core.Must(err)
+			_, err = q.Submit(&nom.AccountBlock{BlockType: nom.BlockTypeUserSend, Address: g.User2.Address, ToAddress: g.User3.Address, TokenStandard: types.ZnnTokenStandard, Amount: big.NewInt(12)}, g.User2)
+			core.Must(err)
+			core.Must(q.Produce(1))
+			core.Must(q.Produce(0))
+			y, err := q.Detailed(q.Height()-1, q.Height())
+			core.Must(err)
+			if _, err := a.InsertChain(wireAll(x)); err != nil {
+				core.Fatal("x: %v", err)
+			}
+			// U on the victim, valid on X
+			tpl := &nom.AccountBlock{BlockType: nom.BlockTypeUserSend, Address: g.Pillar5.Address, ToAddress: g.User6.Address, TokenStandard: types.ZnnTokenStandard, Amount: big.NewInt(3)}
+			if variant == "is-a-receive-acknowledging-an-abandoned-momentum" {
+				tpl = &nom.AccountBlock{BlockType: nom.BlockTypeUserReceive, Address: g.Pillar5.Address, FromBlockHash: s0.Hash}
+			}
+			u, err := a.Submit(tpl, g.Pillar5)
+			if err != nil {
+				core.Fatal("U not accepted on its own branch: %v", err)
+			}
+			patch := a.Chain.GetPatch(u.Address, u.Identifier())
+			if patch == nil {
+				core.Fatal("no patch for the pooled block")
+			}
+			if _, err := a.InsertChain(wireAll(y)); err != nil {
+				core.Fatal("the longer branch is refused: %v", err)
+			}
+			// the producer of the adopted branch confirms U (its pool takes what its owner puts there)
+			uc, _ := node.WireBlock(u)
+			ins := q.Chain.AcquireInsert("lab stale block")
+			err = q.Chain.AddAccountBlockTransaction(ins, &nom.AccountBlockTransaction{Block: uc, Changes: patch})
+			ins.Unlock()
+			if err != nil {
+				core.Fatal("producer pool refuses the block: %v", err)
+			}
+			ztx, err := q.GenerateMomentum(0)
+			if err != nil {
+				core.Fatal("generating the momentum that confirms U: %v", err)
+			}
+			core.Must(q.InsertOwn(ztx))
+			z, err := q.Detailed(q.Height(), q.Height())
+			core.Must(err)
+			found := false
+			for _, b := range z[0].AccountBlocks {
+				if b.Hash == u.Hash {
+					found = true
+				}
+			}
+			if !found {
+				core.Fatal("the crafted momentum does not confirm U")
+			}
+			// control: a node that never pooled U refuses the momentum
+			c, err := node.New("stale-c", node.Options{})
+			core.Must(err)
+			defer c.Stop()
+			if _, err := c.InsertChain(wireAll(append(append([]*nom.DetailedMomentum{}, base...), y...))); err != nil {
+				core.Fatal("control: %v", err)
+			}
+			if _, err := c.InsertChain(wireAll(z)); err == nil {
+				core.Fatal("control node adopts the momentum confirming %s: the element is not invalid", variant)
+			}
+			_, err = a.InsertChain(wireAll(z))
+			run.Traces++
+			run.Count("stale_pooled_block_scenarios", 1)
+			if err == nil || a.Frontier().Hash == z[0].Momentum.Hash {
+				run.Report("C16:adopts-momentum-confirming-stale-pooled-block-"+variant, fmt.Sprintf("the node pooled a block that %s, adopted the longer branch, and then adopted a momentum confirming that block although the block fails verification on the adopted branch (InsertChain error: %v)", variant, err), rep)
+			}
+		}()
+	}
 }
